@@ -1225,7 +1225,7 @@ func init() {
 	core.Register(&core.Check{
 		Spec: core.Spec{
 			Prop:        "C08",
-			Rule:        "Bounded-progress restatement with a logical oracle. (1) Cancellation grid: on chain and diamond ledgers growing from 1 ancestor upwards, each of CalculateBalance, ReadDAGTransactionsByAddress, CreateLeaf (tip validation), AddLeaf (parent-tip validation) and StreamDAG is called with a context that reports cancellation after exactly k looks (k = 0..m+1 for a tip with m ancestors; the code looks once per visited ancestor) and with an already cancelled context; after the call returned no goroutine of the graph's ancestors walker may remain parked in a channel send (runtime.Stack, settled over <=150 polls), and read/write probes must return. (2) Stream cases: slow, stalled, cancelling, abandoned consumers (> 100 vertices) and 8 concurrent consumers while 1-3 writers propose; tips dropped during a stream. (3) Internal early exits: truncation's cut found (1030-vertex ledger), tampered parent met in a validation walk (loaded through sync), arithmetic overflow inside a walk (gross inflow 2^64). (4) Real contexts cancelled asynchronously at PRNG moments on a 300-vertex ledger. A watchdog (25 s) only ends a run; the verdict is the goroutine-state signature (walker parked in chan send, graph writer/reader blocked), otherwise inconclusive. Non-trivial = every case; distinct by (operation, shape, ancestors, k, outcome). (6) Retry exhaustion: an orphan whose parent never arrives uses up its retries through 30 steps of the real retry routine; afterwards another orphan, a proposal, a balance read and a full DAG stream must still return (goroutines waiting on the orphan buffer's mutex are a recognised wedge signature). (7) Truncation under load: a vertex whose weight crosses the next mark wakes the node's own truncation loop four times while two proposers and two gossiping peers keep writing and two clients keep reading balances and histories; every call must return. The truncation early exit runs on a 1030-vertex ledger and on a 2300-vertex ledger (more than a thousand vertices below the cut), the latter twice. (8) Overdrawing tips and children of them (whose arrival drops the tip, a graph write) are gossiped while four clients keep reading balances and histories. (9) Two real nodes of the virtual network originate an item at the same moment while a new node joins each of them (a write to the peer table every forward reads); both messages are handed over at once; every gossip-add and join must return (goroutine signature: peer-table lock waiters). (10) A truncation started by the node's own loop fails (its backup file names are taken by directories); seventy writes and a read must still return. (11) A joining node syncs through the real client from a real gRPC peer whose stream breaks (the call fails after 0, 1, 3 vertices or at the end; a wire vertex is refused); balance, DAG stream and by-hash read on the joiner must return afterwards. Half-orphans (known left parent of a long chain, unknown right parent) admitted for 8.5 s under the real replay ticker. Lock waiters inside value-receiver methods of the ledger are recognised by the goroutine signature.",
+			Rule:        "Bounded-progress restatement with a logical oracle. (1) Cancellation grid: on chain and diamond ledgers growing from 1 ancestor upwards, each of CalculateBalance, ReadDAGTransactionsByAddress, CreateLeaf (tip validation), AddLeaf (parent-tip validation) and StreamDAG is called with a context that reports cancellation after exactly k looks (k = 0..m+1 for a tip with m ancestors; the code looks once per visited ancestor) and with an already cancelled context; after the call returned no goroutine of the graph's ancestors walker may remain parked in a channel send (runtime.Stack, settled over <=150 polls), and read/write probes must return. (2) Stream cases: slow, stalled, cancelling, abandoned consumers (> 100 vertices) and 8 concurrent consumers while 1-3 writers propose; tips dropped during a stream. (3) Internal early exits: truncation's cut found (1030-vertex ledger), tampered parent met in a validation walk (loaded through sync), arithmetic overflow inside a walk (gross inflow 2^64). (4) Real contexts cancelled asynchronously at PRNG moments on a 300-vertex ledger. A watchdog (25 s) only ends a run; the verdict is the goroutine-state signature (walker parked in chan send, graph writer/reader blocked), otherwise inconclusive. Non-trivial = every case; distinct by (operation, shape, ancestors, k, outcome). (6) Retry exhaustion: an orphan whose parent never arrives uses up its retries through 30 steps of the real retry routine; afterwards another orphan, a proposal, a balance read and a full DAG stream must still return (goroutines waiting on the orphan buffer's mutex are a recognised wedge signature). (7) Truncation under load: a vertex whose weight crosses the next mark wakes the node's own truncation loop four times while two proposers and two gossiping peers keep writing and two clients keep reading balances and histories; every call must return. The truncation early exit runs on a 1030-vertex ledger and on a 2300-vertex ledger (more than a thousand vertices below the cut), the latter twice. (8) Overdrawing tips and children of them (whose arrival drops the tip, a graph write) are gossiped while four clients keep reading balances and histories. (9) Two real nodes of the virtual network originate an item at the same moment while a new node joins each of them (a write to the peer table every forward reads); both messages are handed over at once; every gossip-add and join must return (goroutine signature: peer-table lock waiters). (10) A truncation started by the node's own loop fails (its backup file names are taken by directories); seventy writes and a read must still return. (11) A joining node syncs through the real client from a real gRPC peer whose stream breaks (the call fails after 0, 1, 3 vertices or at the end; a wire vertex is refused); balance, DAG stream and by-hash read on the joiner must return afterwards. Half-orphans (known left parent of a long chain, unknown right parent) admitted for 8.5 s under the real replay ticker. Lock waiters inside value-receiver methods of the ledger are recognised by the goroutine signature. A fired watchdog with nobody waiting asks whether the operation's goroutine keeps running in repository code while the process burns processor time (a loop that does not end).",
 			Assumptions: []string{"a goroutine of dag.walkAncestors parked in 'chan send' after its consumer returned can never progress (unbuffered channel, single consumer) and holds muDAG.RLock", "crash points are not among the quantifiers of this property; truncation is not cancelled (its context is the node's lifetime)"},
 			MinEvals:    150, MinNontriv: 40,
 		},
